@@ -23,6 +23,8 @@ pub mod c09;
 
 #[cfg(feature = "c12")]
 pub mod c12;
+#[cfg(feature = "c13")]
+pub mod c13;
 #[cfg(feature = "c16")]
 pub mod c16;
 
